@@ -232,6 +232,23 @@ def _int_lit(t):
         return None
 
 
+_CRATE_FILES = {}
+
+
+def _crate_files(root):
+    """the crate's source files (tests excluded), relative to the scratch root"""
+    if root not in _CRATE_FILES:
+        out = []
+        for d, _ds, fs in os.walk(os.path.join(root, "src")):
+            if "/tests" in d or d.endswith("/tests") or "verif_specs" in d:
+                continue
+            for f in fs:
+                if f.endswith(".rs"):
+                    out.append(os.path.relpath(os.path.join(d, f), root))
+        _CRATE_FILES[root] = sorted(out)
+    return _CRATE_FILES[root]
+
+
 def _is_err_ctor(node):
     """syntactically `Err(..)` / `Err(..).into()` / `Err(e.into())`: only such a returned expression is evaluated ahead of the branch
     decision (anything else - e.g. a call of a helper - belongs to the branch and is evaluated on the path that takes it)"""
@@ -1774,6 +1791,20 @@ class Interp:
                 continue
         if ast is None:
             ast, _where = self.find_helper(m, True)
+        if ast is None and isinstance(recv, Sym) and recv.path == "self" and tn not in ("__helper__", "__opassign__"):
+            # a method of the unit's own type defined in ANOTHER file of the crate (`impl Composer` is spread over src/composer/*.rs)
+            for rel2 in _crate_files(root):
+                if rel2 == rel:
+                    continue
+                for cand in (f"{tn}::{m}", f"alloc::{tn}::{m}"):
+                    if cand in fn_paths(root, rel2):
+                        try:
+                            ast = dump_ast(root, rel2, cand)
+                        except AstLost:
+                            ast = None
+                        break
+                if ast is not None:
+                    break
         if ast is None:
             return NotImplemented
         params = ast["sig"]["params"]
